@@ -60,12 +60,22 @@ pub(super) fn ser_fail() -> SerErr { let id = fresh_id(2); SerErr { synthetic: f
 // code under test drop partially built symbolic values, which CBMC cannot afford)
 pub(super) static mut DE_MAY_FAIL: bool = true;
 pub(super) fn de_may_fail() -> bool { let on = unsafe { DE_MAY_FAIL }; on && kani::any() }
+// Scripted mode: the SHAPE of the document (which event at each step, how many elements) is read from a
+// concrete script, so allocation sizes and control flow are concrete; payloads and failures stay symbolic.
+pub(super) static mut SCRIPT_ON: bool = false;
+pub(super) static mut SCRIPT: [u8; 16] = [0; 16];
+pub(super) static mut SCRIPT_POS: usize = 0;
+pub(super) fn choose(bound: u8) -> u8 {
+	unsafe {
+		if SCRIPT_ON { let v = SCRIPT[SCRIPT_POS]; SCRIPT_POS += 1; assert!(v < bound); v }
+		else { let k: u8 = kani::any(); kani::assume(k < bound); k }
+	}
+}
 pub(super) struct MockDe { pub depth: u8 }
 impl<'de> Deserializer<'de> for MockDe {
 	type Error = DeErr;
 	fn deserialize_any<V: DeVisitor<'de>>(self, v: V) -> Result<V::Value, DeErr> {
-		let k: u8 = kani::any();
-		kani::assume(k < 6);
+		let k: u8 = choose(6);
 		let may_fail = unsafe { DE_MAY_FAIL };
 		kani::assume(k != 0 || may_fail);
 		match k {
@@ -73,12 +83,12 @@ impl<'de> Deserializer<'de> for MockDe {
 			1 => { let b: bool = kani::any(); de_log(E_BOOL, b as u64); v.visit_bool(b) }
 			2 => { let x: u64 = kani::any(); de_log(E_U64, x); v.visit_u64(x) }
 			3 if self.depth > 0 => {
-				let n: u8 = kani::any(); kani::assume(n <= 2);
+				let n: u8 = choose(3);
 				de_log(E_SEQ, n as u64);
 				v.visit_seq(MockSeq { remaining: n, depth: self.depth - 1 })
 			}
 			4 if self.depth > 0 => {
-				let n: u8 = kani::any(); kani::assume(n <= 1);
+				let n: u8 = choose(2);
 				de_log(E_MAP, n as u64);
 				v.visit_map(MockMap { remaining: n, depth: self.depth - 1 })
 			}
